@@ -1,9 +1,9 @@
 package c03
 
 import (
-	"strings"
 	"bytes"
 	"fmt"
+	"strings"
 	"unicode/utf16"
 
 	"Havoc/pkg/common/parser"
